@@ -26,6 +26,20 @@ thread_local! {
     /// differs means the result depended on the history of the process.
     static GLOBAL_REFS: RefCell<HashMap<u64, u64>> = RefCell::new(HashMap::new());
     static ENV: RefCell<Option<Arc<Env>>> = const { RefCell::new(None) };
+    /// one long-lived parser per configuration and process, never reset: it accumulates
+    /// the history of every run of the worker (counters that wrap, caches that fill up)
+    static SOAK: RefCell<HashMap<ParserCfg, Arc<CooklangParser>>> = RefCell::new(HashMap::new());
+}
+
+fn soak_parser(cfg: &ParserCfg) -> Arc<CooklangParser> {
+    SOAK.with(|t| {
+        let mut t = t.borrow_mut();
+        if !t.contains_key(cfg) {
+            cooklang::verif_seam::reseed(TEMPLATE_HASH_SEED ^ 0x50A6);
+            t.insert(cfg.clone(), Arc::new(build_parser(cfg)));
+        }
+        t[cfg].clone()
+    })
 }
 
 pub const TEMPLATE_HASH_SEED: u64 = 0x00C0_FFEE_0000_0001;
@@ -737,6 +751,15 @@ pub fn execute(rp: &RefPhase, sched: &SchedSpec, want_log: bool) -> (Vec<Violati
         clean.faults.clear();
         let o = perform(&clones[op.parser], &env.sc.inputs[op.input], &clean, false, 0);
         check(&env, &clean, &o, "post-clone", false);
+    }
+    // ... and on the worker's long-lived parser of that configuration
+    for op in env.sc.all_ops() {
+        let mut clean = op.clone();
+        clean.faults.clear();
+        let soak = soak_parser(&env.sc.parsers[op.parser]);
+        cooklang::verif_seam::reseed(env.sc.hash_seed ^ 0x50A7);
+        let o = perform(&soak, &env.sc.inputs[op.input], &clean, false, 0);
+        check(&env, &clean, &o, "soak", false);
     }
     let choices = record.lock().unwrap().clone();
     sim::with(|s| {
